@@ -46,6 +46,9 @@ def run(ctx):
         if af == 'other' or bf == 'other':
             ctx.expect(isinstance(out, Unk) and 'raises' in out.why, 'ALG-15', inst + ' refused', loc(cf), 'unsupported unit raises', 'unsupported unit accepted: %r' % (out,), 'refusal')
             continue
+        if isinstance(out, Unk) and 'raises' in out.why:
+            ctx.violation('ALG-15', inst, loc(cf), 'a supported conversion is refused: %s' % out.why, 'supported-refused')
+            continue
         okk = compare(ctx, 'ALG-15', inst, loc(cf), out, X * s1[af] * s2[bf], (A_, N_), vocab={'X', 'nu', 'dist'}, findings=I.findings,
                       detail_ok='value == X * %s * %s' % (alg.show(s1[af]), alg.show(s2[bf])))
         if okk:
